@@ -357,6 +357,11 @@ class Statement(ConditionalStatementBase):
             include_lookups=False,
             include_calls=include_calls)
 
+    def map_expressions(self, mapper, include_lhs=True):
+        return (super()
+                .map_expressions(mapper, include_lhs=include_lhs)
+                .copy(condition=mapper(self.condition)))
+
 
 class Nop(NopBase):
     exec_method = intern("exec_Nop")
